@@ -2,8 +2,9 @@
 import re
 from props.common_prog import judge_prog
 
-THEOREM_MODULES = ["Hcl.Theorems.C07", "Hcl.Tie.Ops"]
-THEOREMS = {"Hcl.Tie.Ops": ["Tie.Ops.binopKind", "Tie.Ops.applyRawArms", "Tie.Ops.binopApplyText", "Tie.Ops.unopApplyText", "Tie.Ops.maskText"], "Hcl.Theorems.C07": ["Program_new_sound'", "C07_accepted", "Program_new_sound", "assignmentsToActions_sound", "C07_cycle", "C07_soundness",
+THEOREM_MODULES = ["Hcl.Theorems.C07", "Hcl.Tie.Ops", "Hcl.Theorems.FromText"]
+THEOREMS = {"Hcl.Theorems.FromText": ["C07_from_text", "Parser.parseProgram_wf", "Lexer.constant_wf"],
+            "Hcl.Tie.Ops": ["Tie.Ops.binopKind", "Tie.Ops.applyRawArms", "Tie.Ops.binopApplyText", "Tie.Ops.unopApplyText", "Tie.Ops.maskText"], "Hcl.Theorems.C07": ["Program_new_sound'", "C07_accepted", "Program_new_sound", "assignmentsToActions_sound", "C07_cycle", "C07_soundness",
                                  "C07_values_fit", "C07_expression", "execAction_sound", "processBanks_sound", "ev_correct",
                                  "GBuild.sort_spec", "check_err", "step3_facts", "resolveConstants_constOK", "banks_fold_ok"]}
 
